@@ -94,5 +94,44 @@ def handle : List String → Option String
         showM Drive.C04.showEvIds
           (SrcSM.apply_mct pow d2m m2d cmct CatFilter.Event.originTime CatFilter.Event.magnitude ev mMain epoch mc)
       | _, _, _, _, _, _, _ => "bad-op")
+  -- srcsm_create_tile_fix_len <fuel> <quadk> <zoom> <qk> : final qk
+  | ["srcsm_create_tile_fix_len", fuel, q, zoom, qk] => some (
+      match fuel.toNat?, parseInt? zoom, parseList? some qk with
+      | some fuel, some zoom, some qk => showM (showList id) (SrcSM.create_tile_fix_len fuel q zoom qk)
+      | _, _, _ => "bad-op")
+  -- srcsm_create_tile <fuel> <quadk> <threshold> <zoom> <lon> <lat> <qk> <num> <quadkey:w:s:e:n;…> : final qk | final num
+  --   `mercantile.quadkey_to_tile` = identity on the quadkey, `mercantile.bounds` = the table of the recorded calls
+  | ["srcsm_create_tile", fuel, q, thr, zoom, lon, lat, qk, num, tbl] => some (
+      let row? : String → Option (String × Rat × Rat × Rat × Rat) := fun r =>
+        match r.splitOn ":" with
+        | [k, w, s, e, n] => do some (k, ← parseRat? w, ← parseRat? s, ← parseRat? e, ← parseRat? n)
+        | _ => none
+      match fuel.toNat?, parseInt? thr, parseInt? zoom, parseList? parseRat? lon, parseList? parseRat? lat,
+            parseList? some qk, parseList? parseInt? num, (if tbl = "-" then some [] else (tbl.splitOn ";").mapM row?) with
+      | some fuel, some thr, some zoom, some lon, some lat, some qk, some num, some tbl =>
+        let bounds : String → Rat × Rat × Rat × Rat := fun k =>
+          match tbl.find? (fun r => r.1 == k) with
+          | some r => r.2
+          | none => (0, 0, 0, 0)
+        showM (fun r => s!"{showList id r.1}|{showList toString r.2}")
+          (SrcSM.create_tile (Tile := String) id bounds fuel q thr zoom lon lat qk num)
+      | _, _, _, _, _, _, _, _ => "bad-op")
+  -- srcsm_build_bitmask_loop <ny> <nx> <npolys> <idx> <idy> <poly_mask | none> : the final array, row by row, each
+  --   position as `mask:index` (index `nan` where plane 1 still holds its initial nan). Initial array: plane 0 all 1,
+  --   plane 1 all nan (stand-in −1: polygon numbers are ≥ 0)
+  | ["srcsm_build_bitmask_loop", ny, nx, np, idx, idy, pm] => some (
+      match ny.toNat?, nx.toNat?, np.toNat?, parseList? parseInt? idx, parseList? parseInt? idy,
+            (if pm = "none" then some none else (parseList? parseInt? pm).map some) with
+      | some ny, some nx, some np, some idx, some idy, some pm =>
+        let a0 : PySM.NdArr Rat := { shape := [ny, nx, 2], get := fun q => if q.getD 2 0 = 0 then 1 else -1 }
+        showM (fun r =>
+            let a := r.1
+            showList (fun (q : Nat × Nat) =>
+              let m := a.get [q.1, q.2, 0]
+              let i := a.get [q.1, q.2, 1]
+              s!"{showRat m}:{if i = -1 then "nan" else showRat i}")
+              ((List.range ny).flatMap (fun r => (List.range nx).map (fun c => (r, c)))))
+          (SrcSM.build_bitmask_loop (Poly := Unit) (List.replicate np (), pm) a0 idx idy [] [])
+      | _, _, _, _, _, _ => "bad-op")
   | _ => none
 end Drive.SrcSM
